@@ -60,6 +60,9 @@ let result_str r =
 (* case: (rk mode cap tree)  with mode = forked | inproc | (single <name>) *)
 let runner_case (s : sexp) : string =
   match s with
+  | L [A "timeout-accepts"; v] ->
+      let bytes = (match v with A "e" -> [] | L l -> List.map (fun x -> n_of_int (int_of_string (atom x))) l | _ -> failwith "bytes") in
+      if setting_accepted (Some bytes) then "1" else "0"
   | L [rk; mode; cap; tree] ->
       let rk = rk_of (atom rk) and cap = ni cap and tree = node_of tree in
       let r = (match mode with
